@@ -7,12 +7,13 @@
 package main
 
 import (
-	"context"
 	"bytes"
+	"context"
 	"crypto/ecdsa"
 	"crypto/elliptic"
 	"crypto/rand"
 	"crypto/x509"
+	"crypto/x509/pkix"
 	"encoding/base64"
 	"encoding/json"
 	"encoding/pem"
@@ -21,6 +22,7 @@ import (
 	"math"
 	"net/http"
 	"net/http/httptest"
+	"net/url"
 	"os"
 	"sort"
 	"strconv"
@@ -38,15 +40,15 @@ import (
 )
 
 type env struct {
-	ca        *fixture.CA
-	srv       *fixture.Server
-	adminCrt  *x509.Certificate
-	adminInts []*x509.Certificate
-	adminKey  *ecdsa.PrivateKey
-	leaf      []*x509.Certificate // a valid client certificate chain (for mTLS endpoints)
-	hostCert  *ssh.Certificate    // CA-issued SSH host certificate
-	hostKey   *ecdsa.PrivateKey
-	statusHis map[int]int
+	ca            *fixture.CA
+	srv           *fixture.Server
+	adminCrt      *x509.Certificate
+	adminInts     []*x509.Certificate
+	adminKey      *ecdsa.PrivateKey
+	leaf          []*x509.Certificate // a valid client certificate chain (for mTLS endpoints)
+	hostCert      *ssh.Certificate    // CA-issued SSH host certificate
+	hostKey       *ecdsa.PrivateKey
+	statusHis     map[int]int
 	sshConfigBase map[string]string
 }
 
@@ -378,6 +380,20 @@ var gens = map[string]gen{
 		}
 		obj := map[string]any{"publicKey": pub.Marshal(), "ott": e.sshToken("k", "/1.0/ssh/sign", tokOpts), "certType": typ, "keyID": "k", "principals": []string{"p1"},
 			"validAfter": "", "validBefore": "", "addUserPublicKey": nil, "identityCSR": nil, "templateData": nil}
+		if r.Chance(1, 2) {
+			// well-formed nested documents with boundary values: a correctly signed identity CSR whose names are
+			// short, empty-ish or near the forms the handler looks for, and a well-formed second public key
+			if csr := identityCSR(r); csr != nil {
+				obj["identityCSR"] = pemCSR(csr)
+			}
+			if r.Chance(1, 3) {
+				k2 := must(ecdsa.GenerateKey(elliptic.P256(), rand.Reader))
+				obj["addUserPublicKey"] = must(ssh.NewPublicKey(&k2.PublicKey)).Marshal()
+			}
+			if r.Chance(2, 3) {
+				return e.post("/1.0/ssh/sign", obj), "identity"
+			}
+		}
 		return e.post("/1.0/ssh/sign", obj), mutateFields(r, obj, "validAfter", "validBefore")
 	},
 	"revoke": func(e *env, r *c.Rng) (*http.Request, string) {
@@ -532,8 +548,8 @@ var gens = map[string]gen{
 				pubJSON := must(json.Marshal(&pub))
 				body = must(json.Marshal(map[string]any{"type": c.Pick(r, []any{"JWK", "JWK", "ACME", 1, 99, pickS(r)}), "name": c.Pick(r, []string{"jwk", "new-" + fmt.Sprint(r.Intn(5)), pickS(r)}),
 					"details": map[string]any{"JWK": map[string]any{"publicKey": c.Pick(r, []any{base64.StdEncoding.EncodeToString(pubJSON), pickS(r), ""})}},
-					"claims": map[string]any{"x509": map[string]any{"enabled": true, "durations": map[string]any{"min": c.Pick(r, []string{"5m", pickS(r)}), "max": c.Pick(r, append([]string{"24h"}, extremeTimes...)), "default": c.Pick(r, append([]string{"1h"}, extremeTimes...))}}},
-					"policy": c.Pick(r, []any{nil, pol})}))
+					"claims":  map[string]any{"x509": map[string]any{"enabled": true, "durations": map[string]any{"min": c.Pick(r, []string{"5m", pickS(r)}), "max": c.Pick(r, append([]string{"24h"}, extremeTimes...)), "default": c.Pick(r, append([]string{"1h"}, extremeTimes...))}}},
+					"policy":  c.Pick(r, []any{nil, pol})}))
 			case 4:
 				body = must(json.Marshal(map[string]any{"name": c.Pick(r, []string{"wh", pickS(r)}), "url": c.Pick(r, []string{"https://wh.verif.test/x", pickS(r)}), "kind": c.Pick(r, []any{"ENRICHING", "AUTHORIZING", 1, pickS(r)}),
 					"certType": c.Pick(r, []any{"ALL", "X509", "SSH", 7})}))
@@ -579,6 +595,37 @@ var gens = map[string]gen{
 		req.Header.Set("Content-Type", "application/jose+json")
 		return req, strings.TrimPrefix(path, "/acme/acme/")
 	},
+}
+
+// identityURIs: URI names around the shapes the handlers slice, compare or parse (prefix lengths, uuid forms)
+var identityURIs = []string{"a:b", "a:", "x:y/z", "urn:x", "urn:uuid", "urn:uuid:", "urn:uuid:1", "URN:UUID:6ba7b810-9dad-11d1-80b4-00c04fd430c8",
+	"urn:uuid:6ba7b810-9dad-11d1-80b4-00c04fd430c8", "urn:uuid:6ba7b8109dad11d180b400c04fd430c8xxxx", "urn:uuid:{6ba7b810-9dad-11d1-80b4-00c04fd430c}", "urn:uuid:zzzzzzzz-zzzz-zzzz-zzzz-zzzzzzzzzzzz",
+	"https://k", "https://k/" + strings.Repeat("p", 300), "mailto:k@verif.test", "spiffe://verif.test/k", "//k", "k", "?", "#", ""}
+
+// identityCSR: a correctly signed certificate request with names picked from the boundary pools
+func identityCSR(r *c.Rng) *x509.CertificateRequest {
+	key := must(ecdsa.GenerateKey(elliptic.P256(), rand.Reader))
+	tpl := &x509.CertificateRequest{Subject: pkix.Name{CommonName: c.Pick(r, []string{"k", "", "p1", pickS(r)})}}
+	for i := r.Intn(4); i > 0; i-- {
+		if u, err := url.Parse(c.Pick(r, identityURIs)); err == nil {
+			tpl.URIs = append(tpl.URIs, u)
+		}
+	}
+	for i := r.Intn(2); i > 0; i-- {
+		tpl.DNSNames = append(tpl.DNSNames, c.Pick(r, []string{"k", "p1", "", "a.verif.test", "*"}))
+	}
+	for i := r.Intn(2); i > 0; i-- {
+		tpl.EmailAddresses = append(tpl.EmailAddresses, c.Pick(r, []string{"k@verif.test", "k", "@", ""}))
+	}
+	der, err := x509.CreateCertificateRequest(rand.Reader, tpl, key)
+	if err != nil {
+		return nil
+	}
+	csr, err := x509.ParseCertificateRequest(der)
+	if err != nil {
+		return nil
+	}
+	return csr
 }
 
 func genNames() []string {
